@@ -4,6 +4,6 @@ CONSTANTS Chans = {3} Rows = {14} Chars = {65} MaxPairs = 6
   Kinds = {"RDC", "PAC", "BS", "DER", "TO", "TEXT"}
   Mix <- NoMix Bursts <- NoBurst
 SPECIFICATION GSpec
-VIEW gview
+VIEW gview2
 ACTION_CONSTRAINT TDump
 CHECK_DEADLOCK FALSE
